@@ -76,8 +76,13 @@ H2 == Other("##! https://coreruleset.org/docs/development/regex_assembly/.")
 Header == << H1, H2, Blank >>
 
 \* the canonical form of one line at nesting depth d
+\* The text of a file passes two line readers (the parser's and the formatter's); each takes one
+\* carriage return off the end of a line.  `cr' is the first one; a trail that ends in another one
+\* loses it as well.
+TrailIn(l) == IF l.cr /\ Len(l.trail) > 0 /\ SubSeq(l.trail, Len(l.trail), Len(l.trail)) = "\r"
+              THEN SubSeq(l.trail, 1, Len(l.trail) - 1) ELSE l.trail
 CanonLine(l, d) ==
-    LET c == [l EXCEPT !.cr = FALSE] IN
+    LET c == [l EXCEPT !.cr = FALSE, !.trail = TrailIn(l)] IN
     CASE l.k = "bstart"  -> [c EXCEPT !.lead = Spaces(2 * d), !.trail = "", !.sp1 = " ", !.sp2 = " "]
       [] l.k = "bend"    -> [c EXCEPT !.lead = Spaces(2 * (d - 1))]
       [] l.k \in {"flags", "prefix", "suffix"} -> [c EXCEPT !.lead = "", !.trail = "", !.sp1 = " "]
@@ -160,7 +165,7 @@ Shape(g) ==
 \* a line with all blanks and tabs (and the carriage return) disregarded
 Squash(s) == LET RECURSIVE go(_)
                  go(i) == IF i > Len(s) THEN ""
-                          ELSE LET ch == SubSeq(s, i, i) IN (IF ch \in {" ", "\t"} THEN "" ELSE ch) \o go(i + 1)
+                          ELSE LET ch == SubSeq(s, i, i) IN (IF ch \in {" ", "\t", "\r"} THEN "" ELSE ch) \o go(i + 1)
              IN  go(1)
 SquashAll(ls) == [i \in 1..Len(ls) |-> Squash(Raw(ls[i]))]
 
